@@ -61,6 +61,12 @@ def lookupLine (st : LkRun) (lineNo : Nat) (line : String) : Except String (LkRu
       let ownEnd := fun (c : Caller) => c.ownEnd Mode.repaired
       let late := zipped.filter fun ((c : Caller), ((t : Nat), (_ : String))) => c.deadline.isNone && t > c.start + 300000
       let blamed := zipped.filter fun ((c : Caller), ((t : Nat), (r : String))) => r == "ctx" && (match ownEnd c with | some e => t < e | none => true)
+      -- "a failed lookup is reported": a caller is told its lookup failed only when a request it
+      -- was waiting for did fail - at that moment - not because of anything that ended another
+      -- caller's context
+      let failEnds : List Nat := (reqs.zip script).filterMap fun (t0, b) => match b with
+        | .fail l => some (t0 + l) | .failCtx l => some (t0 + l) | _ => none
+      let failedForNothing := zipped.filter fun ((_ : Caller), ((t : Nat), (r : String))) => r == "failed" && !failEnds.contains t
       let firstHandle := (rets.filterMap fun (t, r) => if r == "handle" then some t else none).foldl (fun acc t => match acc with | none => some t | some a => some (min a t)) none
       let missed := match firstHandle with
         | none => []
@@ -73,6 +79,7 @@ def lookupLine (st : LkRun) (lineNo : Nat) (line : String) : Except String (LkRu
       let outs : List String :=
         (if late.isEmpty then [] else [s!"PROPFAIL C16 bounded_no_deadline {tag} rets={get "rets"} reqs={get "reqs"}"]) ++
         (if blamed.isEmpty then [] else [s!"PROPFAIL C16 not_failed_by_others {tag} rets={get "rets"}"]) ++
+        (if failedForNothing.isEmpty then [] else [s!"PROPFAIL C16 not_failed_by_others {tag} rets={get "rets"} reqs={get "reqs"} (a caller was told its lookup failed although no request failed at that moment)"]) ++
         (if (get "maxconc").toNat?.getD 99 ≤ 1 then [] else [s!"PROPFAIL C16 single_flight {tag} maxconc={get "maxconc"}"]) ++
         (if missed.isEmpty then [] else [s!"PROPFAIL C16 waiters_get_handle {tag} rets={get "rets"}"]) ++
         (if (rets.any fun (_, r) => r == "badhandle") then [s!"PROPFAIL C16 working_handle {tag}"] else []) ++
